@@ -735,7 +735,20 @@ fn construct(src: &str) -> &'static str {
             }
         }
         if code.contains(';') {
-            return if code.contains('#') { "unsplit-marker-comment" } else { "unsplit-marker" };
+            if code.contains('#') {
+                // the bracket closes on the joined line whose front line ended in a comment: "(1 # c⏎;3)"
+                let cl: Vec<&str> = code.lines().collect();
+                let closes_after_comment = cl.iter().enumerate().any(|(i, l)| {
+                    let t = l.trim();
+                    t.ends_with([')', ']', '}'])
+                        && !t.contains('#')
+                        && i > 0
+                        && (t.starts_with(';') || cl[i - 1].trim_end().ends_with(';'))
+                        && cl[..i].iter().any(|p| p.contains('#'))
+                });
+                return if closes_after_comment { "unsplit-marker-comment-bracket" } else { "unsplit-marker-comment" };
+            }
+            return "unsplit-marker";
         }
     }
     if has("$$") {
@@ -1585,10 +1598,22 @@ fn gen_program(r: &mut Rng) -> (String, Vec<&'static str>) {
 
 /// hand-written seeds: earlier counterexamples and the constructs of the property's quantifier
 const SEEDS: &[&str] = &[
-    // open: a line ending in the ; marker followed by a comment line: the code ends up inside the comment
+    // open: the bracket closes on a joined line whose front line ended in a comment
+    "(1 # c\n;3)\n",
+    "[1 # c\n;3]\n",
+    "(# c\n;3)\n",
+    "(#\n;)",
+    // a comment ending the front line of a ; join (98f6f40), alignment of joined bindings (56f6c63)
+    "X ← 3\nF ← (\n  X ;\n  # c\n)\nF\n",
+    "X ← 3\nY ← 4\nF ← (\n  X # a\n  ;Y # b\n)\nF\n",
+    "X ← 3\nF ← (\n  X ;\n  ## \n  1\n)\nF\n",
+    "[1 ;\n # c\n 2]\n",
+    "[1 # a\n ;2 # b\n]\n",
+    "1 ;\n# c\n2\n",
+    "XY ← 1\nG ← (2 # c\n;3)\nH ← 4\n",
+    "XY ← 1\nG ← [2\n;3]\nHij ← 4\n",
     "X ← 3\nF ← (\n  X ;\n  # c\n  Y\n)\nF\n",
     "X←3\nF←(\nX;\n#\n)\nF",
-    // open: a binding whose lines are joined is aligned with its neighbours only on the second pass
     "XY ← 1\nG ← (2\n;3)\n",
     "XY←\nG←(;\n)",
     // number literals with exponent signs, fractions, signs in both components; lone negative subscripts
